@@ -1357,6 +1357,15 @@ class PanicAnalysis:
     def _leader_rule(self, s):
         from .props.c09 import GET_LEADER
         if s.root != GET_LEADER:
+            # `committee.address(&get_leader(..)).expect(..)` wherever it is written: the elected leader is an authority
+            n = s.node
+            if s.kind in ("expect", "unwrap") and n is not None and n["k"] == "mcall":
+                rt = self.env.ctx(s.fn).term(n["recv"])
+                if re.match(r"^self\.committee\.address\(self\.leader_elector\.get_leader\(.*\)\)$", rt):
+                    if not self.auth_status.get("C09.LE1", False):
+                        s.detail = "the leader's address lookup is authenticated by C09.LE1, which does not pass on this tree"
+                        return None
+                    return ("AUTH", "get_leader returns one of committee.authorities' keys (C09.LE1), for which address() is Some")
             return None
         if s.kind == "index" or (s.kind == "assert" and s.what in ("BoundsCheck", "RemainderByZero")):
             req = ["C09.LE1"] + (["C15.ENV-OWN-KEY"] if s.what == "RemainderByZero" else [])
